@@ -174,7 +174,7 @@ func Run(P *sx.Program, id, tier string, seed int64, verifDir string, verbose bo
 			gorder = append(gorder, base)
 		}
 		// prefer an instance with a model for the replay
-		if len(g.first.Model) == 0 && len(o.Model) > 0 {
+		if !g.first.Sat && o.Sat {
 			g.first = o
 		}
 		g.insts = append(g.insts, inst)
@@ -186,7 +186,7 @@ func Run(P *sx.Program, id, tier string, seed int64, verifDir string, verbose bo
 		failedNames = append(failedNames, base)
 		path := vc.WriteReplay(replayDir, id, o)
 		suffix := ""
-		if len(o.Model) == 0 {
+		if !o.Sat {
 			suffix = " no-failing-input-found"
 		}
 		extra := ""
